@@ -4,6 +4,7 @@ package main
 
 import (
 	"fmt"
+	"regexp"
 	"go/ast"
 	"go/parser"
 	"go/token"
@@ -475,8 +476,17 @@ func (e *Engine) verifyFunc(t *Target) (res *FuncResult) {
 			c.fact(sc.boolOf(r.Expr))
 		}
 		for _, d := range fs.Defines {
+			c.trusted["definitional axiom in the contract of "+t.Key+": "+oneLine(d.Src)] = true
+			mentionsResult := false
+			for _, rn := range fs.Results {
+				if rn != "_" && regexp.MustCompile(`\b`+rn+`\b`).MatchString(d.Src) {
+					mentionsResult = true
+				}
+			}
+			if mentionsResult {
+				continue // about the result: only meaningful to callers
+			}
 			c.fact(sc.boolOf(d.Expr))
-			c.trusted["definitional axiom of a ghost function in the contract of "+t.Key+": "+oneLine(d.Src)] = true
 		}
 		for _, u := range fs.Uses {
 			c.useLemma(st, u)
